@@ -66,7 +66,7 @@ def build_pool(seed, tier, registered):
             r = lib.parse_reference(t['ref']) + timedelta(days=[1, 7, 31, 366, 4000][dec.choice('dref', 5)], hours=dec.choice('hr', 24))
             tw['ref'] = r.strftime('%Y-%m-%dT%H:%M:%S')
         elif t['kind'] == 'DateTime' and k == 1:
-            tw['opt'] = [o for o in (0, 2, 4) if o != t['opt']][dec.choice('dopt', 2)]
+            tw['opt'] = [o for o in (0, 1, 2, 3, 4) if o != t['opt']][dec.choice('dopt', 4)]
         elif k == 3 and (t['kind'] in NUMBERISH or t['kind'] == 'DateTime'):
             # same query, same culture, ANOTHER MODEL: extractors of different models share sub-extractors
             kinds = [x for x in NUMBERISH if x != t['kind'] and t['culture'] in reg_set.get(x, ())]
@@ -87,6 +87,22 @@ def build_pool(seed, tier, registered):
         if tw['key'] != t['key']:
             t.setdefault('twins', []).append(tw['key'])
             out[tw['key']].setdefault('twins', []).append(t['key'])
+    # generated expressions (the clocksim families): input shapes the Specs corpus has few of — explicit-year ranges,
+    # reference-anchored ranges, times attached to dates, non-existent dates — each with its own drawn reference
+    from . import families
+    from datetime import datetime as _dt, timedelta as _td
+    gdec = Decider(derive_seed(seed, 'pool-generated'))
+    n_gen = 200 if tier == 'quick' else 2000
+    gens = [families.draw_c10ish, families.draw_c10ish, families.draw_c10ish, families.draw_c06, families.draw_c07,
+            families.draw_c08, families.draw_c09, families.draw_nonexistent]
+    for i in range(n_gen):
+        req = gens[gdec.choice('gen', len(gens))](gdec)
+        if gdec.choice('gen-twin', 4) == 0:
+            req = families.context_twin(gdec, req)
+        ref = _dt(1950, 1, 1) + _td(seconds=gdec.choice('gen-ref', 141 * 365 * 86400))
+        t = norm_tuple({'id': 'gen:%d' % i, 'kind': 'DateTime', 'culture': req['culture'], 'opt': 0, 'query': req['text'],
+                        'ref': ref.strftime('%Y-%m-%dT%H:%M:%S')})
+        out.setdefault(t['key'], t)
     pool = sorted(out.values(), key=lambda x: x['key'])
     return pool
 
@@ -239,7 +255,7 @@ def gen_plan(prop, run_seed, tier, ctx):
     n_clients = [1, 2, 2, 2, 3, 3, 4][dec.choice('n-clients', 7)]
     fault_free = dec.chance('fault-free', 0.4)
     enabled = {k: (not fault_free) and dec.choice('en-' + k, 3) > 0 for k in ('abort', 'alloc-fail-call', 'alloc-fail-ctor', 'stall')}
-    p_fault = 0.0 if fault_free else [0.05, 0.1, 0.2][dec.choice('p-fault', 3)]
+    p_fault = 0.0 if fault_free else [0.05, 0.15, 0.4][dec.choice('p-fault', 3)]
     # focus: a few model groups so that clients share models
     gkeys = sorted(groups)
     heavy = dec.chance('heavy', ctx['p_heavy'])
@@ -299,6 +315,12 @@ def gen_plan(prop, run_seed, tier, ctx):
                 k_hat = max(20, int(est.get(kind, 2000)))
                 step = 1 + dec.choice('fault-step', k_hat if fk != 'alloc-fail-ctor' else max(20, int(est.get('ctor:' + kind, 3000))))
                 op['fault'] = {'kind': fk, 'step': step}
+                if op['op'] == 'call' and fk != 'stall':
+                    # fault-then-verify: the next request of this caller (same thread) goes to the SAME model with another
+                    # query of that group — state a failed call leaves behind shows up here first
+                    g = group_of(pool[op['tuple']])
+                    ts = groups.get(g) or [op['tuple']]
+                    ops.append({'op': 'call', 'tuple': ts[dec.choice('verify-t', len(ts))], 'via': op['via'], 'verify': True})
         clients.append({'cid': cid, 'placement': 'main' if cid == 0 and dec.choice('main', 2) else 'pooled', 'ops': ops})
     # shared recogniser objects: one Recognizer instance used by several clients (a service keeps one per process)
     shared = []
@@ -677,6 +699,15 @@ def nontrivial(plan, record):
     return multi or bool(record['faults_fired']) or repeat
 
 
+def c17_dt_focus(bdec, registered_dt):
+    """C17 date-time focus of a batch: ONE culture under EVERY option value (option collisions need two option values
+    of the same culture in one process) plus the English default model. English every other batch: the
+    option-sensitive probes are English."""
+    cults = sorted({c for (mt, c) in registered_dt})
+    c = 'en-us' if bdec.choice('dt-en', 2) == 0 else cults[bdec.choice('dt-culture', len(cults))]
+    return {(c, o) for o in DT_OPTS} | {('en-us', 0)}
+
+
 def run_batch(job):
     prop, seed, tier = job['prop'], job['seed'], job['tier']
     ctx = load_ctx(job)
@@ -684,8 +715,7 @@ def run_batch(job):
     bdec = Decider(derive_seed(seed, prop, 'batch', job['batch']))
     dt_groups = sorted({(g[1], g[2]) for g in ctx['groups'] if g[0] == 'DateTime'})
     if prop == 'C17':
-        dt_all = sorted({(c, o) for (mt, c) in ctx['registered']['DateTime'] for o in DT_OPTS})
-        ctx['dt_focus'] = set(bdec.sample('dt-focus', dt_all, 3)) | {('en-us', 0)}
+        ctx['dt_focus'] = c17_dt_focus(bdec, ctx['registered']['DateTime'])
     else:
         ctx['dt_focus'] = set(bdec.sample('dt-focus', dt_groups, 3)) | {('en-us', 0)}
     ctx['p_heavy'] = 0.25
